@@ -21,12 +21,12 @@ SIGS = {"allocmaps-sharingKeyForIP-differs-from-rebuild", "allocmaps-portsInUse-
         "allocmaps-servicesOnIP-differs-from-rebuild", "allocmaps-poolIPsInUse-differs-from-rebuild",
         "allocmaps-poolIPV4InUse-differs-from-rebuild", "allocmaps-poolIPV6InUse-differs-from-rebuild",
         "allocmaps-allocated-inconsistent", "allocmaps-fresh-allocator-differs",
-        "allocmaps-failed-op-changed-maps", "allocmaps-panic"}
+        "allocmaps-failed-op-changed-maps", "allocmaps-panic", "allocmaps-allocated-vs-exported"}
 # counters that depend on the generated history only, not on the bookkeeping under test
 NEED = ["m_op_setpools", "m_op_unassign", "m_op_assign", "m_op_allocate", "m_op_frompool", "m_res_ok", "m_res_error",
-        "m_shared_address_states", "m_reassign_same_addresses", "m_unassign_of_holder", "m_rename_with_holders"]
+        "m_shared_address_states", "m_reassign_same_addresses", "m_unassign_of_holder", "m_rename_with_holders", "m_probes"]
 OBSERVABLE = {1: "allocated", 2: "sharingKeyForIP", 3: "portsInUse", 4: "servicesOnIP", 5: "poolIPsInUse",
-              6: "poolIPV4InUse", 7: "poolIPV6InUse", 8: "counters", 9: "checkSharing probe", 10: "model panic flag",
+              6: "poolIPV4InUse", 7: "poolIPV6InUse", 8: "counters", 9: "Pool()/IPs()", 10: "model panic flag",
               11: "operation result"}
 
 
